@@ -55,6 +55,63 @@ theorem sets_mounts {hp : Str → Str} (L : List Api.Mount) {st st' : State}
         simp only [gSets] at this
         rw [this, setStep_mounts hs]
 
+/-! ### rootfs propagation is only raised by a mount that asks for it -/
+
+/-- neither `rshared` nor `rslave` -/
+def Quiet (p : Str) : Prop := p ≠ str "rshared" ∧ p ≠ str "rslave"
+
+theorem propagationQuery_quiet (opts : List Str) (prev : Str) (hprev : Quiet prev)
+    (ho : ∀ o ∈ opts, Quiet o) :
+    Quiet (opts.foldl (fun p o => if isPropagationOpt o then o else p) prev) := by
+  induction opts generalizing prev with
+  | nil => exact hprev
+  | cons o r ih =>
+    simp only [List.foldl_cons]
+    apply ih _ _ (fun x hx => ho x (List.mem_cons_of_mem _ hx))
+    by_cases hpo : isPropagationOpt o = true
+    · rw [if_pos hpo]; exact ho o (by simp)
+    · rw [if_neg hpo]; exact hprev
+
+theorem sets_rootfs {hp : Str → Str} (L : List Api.Mount) {st st' : State}
+    (h : sets hp st L = .ok st') (hst : Quiet st.prop)
+    (hL : ∀ m ∈ L, isMarked m.destination = false → ∀ o ∈ m.options, Quiet o) :
+    st'.rootfs = st.rootfs := by
+  induction L generalizing st with
+  | nil => simp [sets] at h; cases h; rfl
+  | cons m r ih =>
+    simp only [sets] at h
+    have hr : ∀ x ∈ r, isMarked x.destination = false → ∀ o ∈ x.options, Quiet o :=
+      fun x hx => hL x (List.mem_cons_of_mem _ hx)
+    cases hm : isMarked m.destination with
+    | true => rw [hm] at h; simp only [if_true] at h; exact ih h hst hr
+    | false =>
+      rw [hm] at h; simp only [Bool.false_eq_true, if_false] at h
+      have hq : Quiet (m.propagationQuery st.prop) :=
+        propagationQuery_quiet m.options st.prop hst (hL m (by simp) hm)
+      cases hs : setStep hp st m with
+      | error e => rw [hs] at h; cases h
+      | ok st1 =>
+        rw [hs] at h
+        have h1 : st1.rootfs = st.rootfs ∧ st1.prop = m.propagationQuery st.prop := by
+          unfold setStep at hs
+          simp only [hq.1, hq.2, if_false] at hs
+          cases hs; exact ⟨rfl, rfl⟩
+        rw [ih h (h1.2 ▸ hq) hr, h1.1]
+
+theorem apply_rootfs {hp : Str → Str} {ms ms' : List Oci.Mount} {rootfs rootfs' : Str}
+    {L : List Api.Mount} (h : apply hp ms rootfs L = .ok (ms', rootfs'))
+    (hL : ∀ m ∈ L, isMarked m.destination = false → ∀ o ∈ m.options, Quiet o) : rootfs' = rootfs := by
+  unfold apply at h
+  split at h
+  · have := Except.ok.inj h; exact (congrArg Prod.snd this).symm
+  · split at h
+    · rename_i st hst
+      have := congrArg Prod.snd (Except.ok.inj h)
+      simp only at this
+      rw [← this]
+      exact sets_rootfs L hst (show Quiet ([] : Str) by unfold Quiet; decide) hL
+    · cases h
+
 /-! ### the order -/
 
 theorem strLt_irrefl (a : Str) : strLt a a = false := by
@@ -274,6 +331,42 @@ theorem mountLt_of_ancestor {a b : Oci.Mount}
       rw [this]
       have : List.count '/' ['/'] = 1 := by decide
       rw [this]; omega
+
+/-- Only the PARENT has to be a cleaned path: a cleaned directory `a` is `Less` than every mount
+    whose cleaned destination lies below it (if `a` is the root, the other destination must be
+    written with a leading `/`, which every absolute path is). -/
+theorem mountLt_of_clean_parent {a b : Oci.Mount}
+    (ha : cleanPath a.destination = a.destination)
+    (habs : a.destination = ['/'] → ∃ t, b.destination = '/' :: t)
+    (h : IsAncestor a.destination (cleanPath b.destination)) : mountLt a b = true := by
+  obtain ⟨rest, hr, h⟩ := h
+  unfold mountLt parts
+  rw [ha]
+  simp only [Bool.or_eq_true, decide_eq_true_eq, Bool.and_eq_true]
+  rcases h with h | ⟨h1, h2⟩
+  · left
+    rw [h, List.count_append, List.count_cons]
+    simp only [beq_self_eq_true, if_true]
+    omega
+  · rw [h2]
+    by_cases hc : List.count '/' rest = 0
+    · right
+      refine ⟨by rw [h1]; simp [hc], ?_⟩
+      obtain ⟨t, ht⟩ := habs h1
+      rw [h1, ht]
+      have htne : t ≠ [] := by
+        intro ht0
+        rw [ht, ht0] at h2
+        have : cleanPath ['/'] = ['/'] := by decide
+        rw [this] at h2
+        simp only [List.cons.injEq, true_and] at h2
+        exact hr h2.symm
+      have := strLt_append ['/'] htne
+      simpa using this
+    · left
+      have e1 : List.count '/' ('/' :: rest) = List.count '/' rest + 1 := by simp
+      have e2 : List.count '/' a.destination = 1 := by rw [h1]; decide
+      rw [e1, e2]; omega
 
 /-- In a sorted list, an element that is `Less` than another one stands before it. -/
 theorem sorted_index_lt {l : List Oci.Mount} (hs : Sorted l) {i j : Nat} {a b : Oci.Mount}
